@@ -282,11 +282,24 @@ impl SubCheck for Sub {
                 match (a, b) {
                     (Some(a), Some(b)) => {
                         let len = b - a;
-                        if len % 3_600_000_000_000 != 0 || len <= 0 {
+                        if len <= 0 {
+                            // (synthetic tables only: a backward shift of a day or more)
                             o.unjudged = true;
-                            o = o.class("unjudged:fractional-hour-day");
+                            o = o.class("unjudged:local-day-of-non-positive-length");
                             let _ = zdt.hours_in_day_with_provider(&prov);
                             return o;
+                        }
+                        if len % 3_600_000_000_000 != 0 {
+                            // the real elapsed length is not a whole number of hours (Lord Howe: 23.5 / 24.5 h); the
+                            // method returns an integer type, so the right answer cannot be returned at all: listed
+                            // finding when the result is the truncated length, a mismatch otherwise
+                            o = o.class("fractional-hour-day").nontrivial(true);
+                            let exact = format!("{} h (exactly {} ns)", len as f64 / 3.6e12, len);
+                            return match zdt.hours_in_day_with_provider(&prov) {
+                                Ok(g) if g as i128 == len / 3_600_000_000_000 => o.fail("C14/hours_in_day/fractional-length-truncated-by-integer-return-type", exact, g.to_string()),
+                                Ok(g) => o.fail("C14/hours_in_day/mismatch", exact, g.to_string()),
+                                Err(e) => o.fail("C14/hours_in_day/error", exact, err_str(&e)),
+                            };
                         }
                         let want = len / 3_600_000_000_000;
                         if want != 24 {
